@@ -1379,6 +1379,20 @@ def rule_segment_source_advances(res, rid, m):
                   "copy source advances with %s" % sorted(adv),
                   "the payload copy in the segmentation loop reads from `%s`, which does not depend on any variable the loop modifies: "
                   "every segment carries the payload's first bytes" % canon(src))
+        # ... and starts at the payload's first byte: each loop-carried local the source is built from starts at 0 (an offset) or at the raw
+        # payload itself (a bumped pointer) before the loop
+        defs = facts.local_defs(f)
+        for d0 in sorted(x for x in adv if ":" in x and not x.startswith(ENC)):
+            inits = [v["init"] for n2 in f.nodes() if n2.get("k") == "decl" for v in n2.get("vars", []) if v.get("decl") == d0 and isinstance(v.get("init"), dict)] + \
+                [n2["r"] for n2 in f.nodes() if n2.get("k") == "assign" and strip_all_casts(n2["l"]).get("decl") == d0 and d0 not in reads(n2["r"])]
+            okstart = False
+            if len(inits) == 1:
+                i0 = strip_all_casts(inits[0])
+                okstart = const_value(i0) == 0 or ((i0.get("t") or {}).get("k") == "ptr" and "ASAM::CMP::Payload::getRawPayload" in called_names(facts.expand(f, i0)) and
+                                                   not any(x.get("k") == "bin" for x in walk(facts.expand(f, i0))))
+            res.check(okstart, rid, "segment-copy:starts-at-first-byte:%s" % d0.split(":")[-1], (inits[0] if inits else c).get("loc") or c.get("loc"),
+                      "%s starts at the payload's first byte" % d0.split(":")[-1],
+                      "the position the segment copy reads from (`%s`) does not start at the payload's first byte: the first segment skips or repeats bytes" % d0.split(":")[-1])
     return len(cps)
 
 
@@ -1643,6 +1657,25 @@ def rule_writes_inside_frame(res, rid, m, placement=False):
                          const_value(strip_all_casts(a2)["r"]) == hdr for a2 in e.get("args", []))
         res.check(exact_room, rid, "chunk:fills-the-frame", c.get("loc"), "the room offered to min() is all of free - %d" % hdr,
                   "the chunk is bounded by less than the free bytes minus the %d-byte message header: segments other than the last do not fill their frame to the maximum" % hdr)
+    if okmin:
+        # the other operand is what is left of the payload: payload length minus the position the copy reads from (a sum, a constant, the whole
+        # length would copy bytes behind the payload into the later segments)
+        posv = loop_position_vars(m)
+        from rules.decoder_rules import _linear as _lin9
+
+        def sy9(z):
+            if z.get("k") == "call" and callee_name(z) == PKT + "::getPayloadLength":
+                return "L"
+            if z.get("k") == "ref" and z.get("decl") in posv:
+                return "pos"
+            if z.get("k") == "member" and z.get("field") == m.bytesLeft:
+                return "free"
+            return None
+        others = [a2 for a2 in e.get("args", []) if _lin9(f, a2, sy9) is None or "free" not in (_lin9(f, a2, sy9) or {})]
+        okrem = len(posv) == 1 and len(others) == 1 and {k9: v9 for k9, v9 in (_lin9(f, others[0], sy9) or {}).items() if v9} == {"L": 1, "pos": -1}
+        res.check(okrem, rid, "chunk:bounded-by-remaining", c.get("loc"), "chunk = min(..., payload length - position)",
+                  "the chunk length is not bounded by what is left of the payload (`%s`): later segments copy bytes from behind the payload" %
+                  (canon(others[0])[:80] if others else "?"))
     res.check(okmin, rid, "chunk:bounded-by-room", c.get("loc"), "chunk = min(free - %d, ...)" % hdr,
               "the chunk length is not bounded by the free bytes minus the %d-byte message header" % hdr)
     decs = [x for x in m.header_writer.nodes() if x.get("k") == "cassign" and x.get("op") == "-" and lvalue_root(x["l"]) == m.bytesLeft]
